@@ -19,7 +19,7 @@ structure FInv (start : Nat) (c : Cfg) : Prop where
   bottom : c.stack.getLast?.map (·.state) = some start
 
 theorem liftTok_next {hist : List Tok} {stack : List StackItem} {res : List Tree} {slice : Option Slice}
-    {r : Ctx × Outcome Tok} {k : Option (Option Slice)} {c' : Cfg}
+    {r : Ctx × Outcome Tok} {k : Option (Option Slice × Nat)} {c' : Cfg}
     (h : liftTok hist stack res slice r k = .next c') :
     c'.stack = stack ∧ c'.res = res ∧ c'.hist = hist ∧ c'.slice = slice := by
   unfold liftTok at h
@@ -28,7 +28,7 @@ theorem liftTok_next {hist : List Tok} {stack : List StackItem} {res : List Tree
   all_goals simp at h
 
 theorem liftTok_not_done {hist : List Tok} {stack : List StackItem} {res : List Tree} {slice : Option Slice}
-    {r : Ctx × Outcome Tok} {k : Option (Option Slice)} {ctx : Ctx} {pr : ParseResult} :
+    {r : Ctx × Outcome Tok} {k : Option (Option Slice × Nat)} {ctx : Ctx} {pr : ParseResult} :
     liftTok hist stack res slice r k ≠ .done ctx pr := by
   unfold liftTok
   split <;> simp
